@@ -4,7 +4,7 @@
 import sys, os, subprocess, tempfile, shutil
 HERE = os.path.dirname(os.path.dirname(os.path.abspath(__file__)))
 bad = 0
-for patch in sys.argv[1:]:
+for patch in [os.path.abspath(p_) for p_ in sys.argv[1:]]:
     tmp = tempfile.mkdtemp(prefix='h263-refprobe-')
     try:
         repo = os.path.join(tmp, 'repo'); os.makedirs(repo)
